@@ -51,6 +51,22 @@ def decorate(w, wn, s, rnd):
         if tanks:
             wn.add_control("ctl_lvl", C.Control(C.ValueCondition(wn.get_node(tanks[0]), "level", ">", 4.0),
                                                 C.ControlAction(p, "status", w.network.LinkStatus.Open)))
+        # simple controls at clock times of every part of the day (AM, PM, the 12 o'clock hours) and at a simulation time
+        for k in range(rnd.randint(0, 3)):
+            sec = rnd.choice([0, 900, 6 * 3600, 11 * 3600 + 59 * 60, 12 * 3600, 12 * 3600 + 1800, 14 * 3600 + 1800, 21 * 3600, 23 * 3600 + 3540])
+            cnd = C.TimeOfDayCondition(wn, "=", sec) if rnd.random() < 0.7 else C.SimTimeCondition(wn, "=", sec + 86400 * rnd.randint(0, 1))
+            wn.add_control("ctl_t%d" % k, C.Control(cnd, C.ControlAction(p, "status", rnd.choice([w.network.LinkStatus.Open, w.network.LinkStatus.Closed]))))
+    # tank mixing models and fractions (incl. 0.0), patterns that do not wrap
+    for t in tanks:
+        if rnd.random() < 0.6:
+            tank = wn.get_node(t)
+            tank.mixing_model = rnd.choice(["MIXED", "2COMP", "FIFO", "LIFO"])
+            # a two-compartment model needs its fraction (EPANET syntax); the other models may or may not carry one
+            if rnd.random() < 0.7 or tank.mixing_model.name in ("Mix2", "TwoComp"):
+                tank.mixing_fraction = rnd.choice([0.0, 0.25, 1.0])
+    if rnd.random() < 0.3:
+        from wntr.network.elements import Pattern
+        wn.add_pattern("nowrap", Pattern("nowrap", [1.0, 0.5, 2.0], time_options=wn.options.time, wrap=False))
 
 
 def norm(d):
